@@ -362,7 +362,43 @@ def rule_7(ctx):
         ctx.expect(ok, anchor, f'dated cash flows: {XN_CELLS[a]}',
                    f'{a} = {XN_CELLS[a]} evaluates to {got!r}, the defining equation gives {w!r} (flows A = {A}, F = {F}; dates B = {B}, C = {C}, '
                    f'E = {E}, D = 2020-01-01 / 2020-07-01 / 2021-01-01)')
-    ctx.floor(12, 'dated cash-flow cells')
+    # annuities at rate 0 and otherwise, before and after an XIRR that does not converge - in one process
+    models.update(V.npf_models())
+    ann = {'K1': 30, 'K2': 444, 'L1': 40000, 'L2': 40312, 'Q9': '=XIRR(K1:K2,L1:L2)', 'P1': '=PV(0,10,100,50)', 'P2': '=PMT(0,10,1000)', 'P3': '=PV(0.05,10,-100,0,1)',
+           'P4': '=NPV(0,10,20,30)', 'P5': '=PV(0,12,-50)', 'P6': '=PV(0,10,100,50,1)', 'P7': '=PMT(0.05,10,1000)', 'P8': '=PV(0.05,10,PMT(0.05,10,1000))', 'P9': '=PV(0,10,PMT(0,10,1000))'}
+    awant = {'P1': -1050.0, 'P2': -100.0, 'P3': 810.7821675644058, 'P4': 60.0, 'P5': 600.0, 'P6': -1050.0, 'P7': -1000 * 0.05 / (1 - 1.05 ** -10), 'P8': 1000.0, 'P9': 1000.0}
+    for oname, order in (('on their own', list(awant)), ('after an XIRR that did not converge', ['Q9'] + list(awant)), ('with the failing XIRR in between', ['P1', 'Q9', 'P2', 'Q9'] + list(awant))):
+        wba = W.Workbook(ctx, ann, models=models)
+        for a in order:
+            got = wba.value('Sheet1!' + a)
+            if a == 'Q9':
+                ok = got in (('error', '#NUM!'), ('error-class', 'NumExcelError'))
+                ctx.expect(ok, anchor, f'XIRR without a root ({oname})', f'{ann[a]} over flows 30, 444 evaluates to {got!r}, expected #NUM!')
+                continue
+            val = got[1] if isinstance(got, tuple) and len(got) == 2 and got[0] == 'Number' else got
+            ok = isinstance(val, (int, float)) and not isinstance(val, bool) and abs(val - awant[a]) <= 1e-9 * max(1.0, abs(awant[a]))
+            ctx.expect(ok, anchor, f'annuity closed forms {oname}: {ann[a]}',
+                       f'{a} = {ann[a]} evaluates to {got!r} when the cells are evaluated {oname}; the closed form gives {awant[a]!r}')
+    # IRR over flows laid out as a row, a column and a block (a rectangular range is read row by row)
+    flows = [-100, 10, 20, 30, 40, 50]
+    irr_ref = V.npf_models()['ext:numpy_financial.irr'](flows)
+    blocks = {'a row': ({f'{c}1': v for c, v in zip('ABCDEF', flows)}, 'A1:F1'), 'a column': ({f'A{i}': v for i, v in enumerate(flows, start=1)}, 'A1:A6'),
+              'a 2x3 block': ({f'{c}{r}': flows[(r - 1) * 3 + j] for r in (1, 2) for j, c in enumerate('ABC')}, 'A1:C2'),
+              'a 3x2 block': ({f'{c}{r}': flows[(r - 1) * 2 + j] for r in (1, 2, 3) for j, c in enumerate('AB')}, 'A1:B3')}
+    for bname, (cells_, rng) in blocks.items():
+        cells_ = dict(cells_)
+        cells_.update({'H1': f'=IRR({rng})', 'H2': f'=NPV(H1,{rng})'})
+        wbi = W.Workbook(ctx, cells_, models=models)
+        got = wbi.value('Sheet1!H1')
+        val = got[1] if isinstance(got, tuple) and len(got) == 2 and got[0] == 'Number' else got
+        ok = isinstance(val, (int, float)) and not isinstance(val, bool) and abs(val - irr_ref) <= 1e-6
+        ctx.expect(ok, anchor, f'IRR over {bname}', f'=IRR({rng}) over the flows {flows} laid out as {bname} evaluates to {got!r}; the rate at which their net present value '
+                   f'vanishes is {irr_ref!r}')
+        got2 = wbi.value('Sheet1!H2')
+        val2 = got2[1] if isinstance(got2, tuple) and len(got2) == 2 and got2[0] == 'Number' else got2
+        ctx.expect(isinstance(val2, (int, float)) and not isinstance(val2, bool) and abs(val2) <= 1e-4, anchor, f'NPV at the IRR over {bname}',
+                   f'=NPV(IRR({rng}),{rng}) evaluates to {got2!r}, expected 0 to within 1e-4: IRR and NPV read the same flows in the same order')
+    ctx.floor(48, 'dated cash-flow cells')
 
 
 RULES = [
